@@ -48,7 +48,7 @@ type c34Case struct {
 func genC34(t *rapid.T) c34Case {
 	c := c34Case{
 		Peer:        rapid.SampledFrom([]int{0, 1, 1, 2}).Draw(t, "peer"),
-		BroadcastMs: rapid.SampledFrom([]int{0, 1, 5, 10, 20, 40}).Draw(t, "broadcast"),
+		BroadcastMs: rapid.SampledFrom([]int{1, 2, 5, 10, 20, 20, 40}).Draw(t, "broadcast"), // 0 would mean "wait forever" to memberlist.Leave
 		PropagateMs: rapid.SampledFrom([]int{0, 0, 1, 5, 10, 20, 40}).Draw(t, "propagate"),
 	}
 	n := rapid.IntRange(2, 6).Draw(t, "ncalls")
@@ -66,6 +66,12 @@ func genC34(t *rapid.T) c34Case {
 		}
 		c.Calls = append(c.Calls, call)
 	}
+	// half of the programs start with the shape the property is about: a Leave at the barrier and a
+	// Shutdown released as soon as State() shows "leaving" (plus a drawn delay)
+	if rapid.Bool().Draw(t, "leave-then-shutdown") {
+		c.Calls[0] = c34Call{Kind: 1}
+		c.Calls[1] = c34Call{Kind: 2, Trigger: 1, DelayUs: c.Calls[1].DelayUs}
+	}
 	return c
 }
 
@@ -82,7 +88,7 @@ type c34Res struct {
 func bodyC34(c c34Case, x *vkit.Ctx) {
 	nw := simnet.New(1)
 	nw.Deliver = c.Peer == 2
-	bt := time.Duration(min(max(c.BroadcastMs, 0), 200)) * time.Millisecond
+	bt := time.Duration(min(max(c.BroadcastMs, 1), 200)) * time.Millisecond
 	pd := time.Duration(min(max(c.PropagateMs, 0), 200)) * time.Millisecond
 	mutate := func(conf *serf.Config) {
 		conf.BroadcastTimeout = bt
@@ -92,7 +98,16 @@ func bodyC34(c c34Case, x *vkit.Ctx) {
 	if n == nil {
 		return
 	}
-	defer n.Stop()
+	defer func() {
+		// the final Shutdown is one more lifecycle call: if it panics (e.g. because the state went
+		// backwards and shutdown runs twice) that is a finding, not a harness crash
+		defer func() {
+			if r := recover(); r != nil && !x.Failed() && !x.IsInconclusive() {
+				x.Violationf("lifecycle-call-panics", "the final Shutdown panicked: %v", r)
+			}
+		}()
+		n.Stop()
+	}()
 	switch c.Peer {
 	case 1:
 		n.EventsD.NotifyJoin(node.MLNode("c34-fake", "10.3.4.5", 7946, nil, 5, 5))
@@ -224,10 +239,15 @@ func bodyC34(c c34Case, x *vkit.Ctx) {
 	allDone := make(chan struct{})
 	go func() { wg.Wait(); close(allDone) }()
 	released := false
+	watchdog := time.After(20 * time.Second)
 	for idle := 0; !released; {
 		select {
 		case <-allDone:
 			released = true
+		case <-watchdog:
+			x.Inconclusive("the program did not finish within 20 s")
+			close(stopSampler)
+			return
 		case <-time.After(5 * time.Millisecond):
 			running := 0
 			for i := range c.Calls {
